@@ -216,6 +216,78 @@ def _expect_raise(out: Outcome, oracle_name: str, what: str, exc: Any, fn: Any) 
     out.fail(oracle_name, "load accepted a checkpoint it must reject", what)
 
 
+# --------------------------------------------------------------------------- long runs: crash points at large step counts
+def strategy_long():
+    from hypothesis import strategies as st
+
+    @st.composite
+    def case(draw: Any) -> dict:
+        pd = draw(st.sampled_from(["bf16", "f16", "f32", "bf16"]))
+        base = {"bf16": 256, "f16": 2048, "f32": 256}[pd]
+        k = base + draw(st.sampled_from([1, 1, 3, 5, 2, 0, -1]))
+        kind = draw(st.sampled_from(["shampoo", "soap"]))
+        cfg = {"lr": 0.0009765625, "beta1": draw(st.sampled_from([0.0, 0.9])), "beta2": draw(st.sampled_from([0.99, 1.0])), "beta3": -1.0, "epsilon": 1e-4,
+               "momentum": draw(st.sampled_from([0.0, 0.5])), "dampening": 0.0, "nesterov": False, "wd": 0.0, "decoupled": True, "bias": True,
+               "graft": draw(st.sampled_from([None, {"type": "adam", "eps": 1e-6, "beta2": 0.99}])), "mpd": 4, "merge": True, "freq": draw(st.sampled_from([1, 3, 7])),
+               "start": -1, "override": 0,
+               "precond": ({"kind": "shampoo", "solver": "eigen", "mult": 1.0, "ignored": [], "tol": 3} if kind == "shampoo" else {"kind": "soap", "method": "eigh", "ignored": [], "tol": 3}),
+               "pdtype": pd, "fdtype": "f32", "gscale": 1.0}
+        return {"cfg": cfg, "shapes": draw(st.sampled_from([[[2]], [[2, 2]], [[3], [2]]])), "k": k, "extra": draw(st.integers(2, 6)), "seed": draw(st.integers(0, 10**4))}
+
+    return case()
+
+
+def oracle_long(case: dict) -> Outcome:
+    """Hundreds to thousands of steps on a tiny model, stop at step k (around the integer-resolution limits of half precision), resume, continue."""
+    out = Outcome()
+    config = {"groups": [{"cfg": case["cfg"], "shapes": case["shapes"]}], "pseed": case["seed"]}
+    A = history.OptRunner(config, check_reference=False)
+    if A.failed_construct:
+        out.failures.append(A.failed_construct)
+        return out
+    n = len(case["shapes"])
+    k, extra = case["k"], case["extra"]
+
+    def step_of(t: int) -> dict:
+        return {"mask": [True] * n, "gseed": case["seed"] * 1000 + t, "gkind": "gauss", "gscale": 1.0}
+
+    for t in range(k):
+        e = A.raw_step(step_of(t))
+        if e is not None:
+            out.classes.append("uninterrupted_run_raised")
+            return out
+    ok, sd = call_sut(out, "C09.save", "distributed_state_dict", lambda: _save(A))
+    if not ok:
+        return out
+    rec = _record(A)
+    B = history.OptRunner(config, check_reference=False)
+    with torch.no_grad():
+        for q, src in zip(B.all_params(), rec["params"]):
+            q.copy_(src)
+    ok, _ = call_sut(out, "C09.load", f"load_distributed_state_dict at crash point k={k}", lambda: B.opt.load_distributed_state_dict(sd, key_to_param=iter(B.named_params())))
+    if not ok:
+        return out
+    B.hp, B.t = [dict(h) for h in rec["hp"]], list(rec["t"])
+    d = _same(rec, B)
+    if d is not None:
+        out.fail("C09.restore", "state right after load differs from the saved run", f"k={k} ({case['cfg']['pdtype']} parameters): {d}")
+        return out
+    for t in range(k, k + extra):
+        ea, eb = A.raw_step(step_of(t)), B.raw_step(step_of(t))
+        if ea is not None or eb is not None:
+            if (ea is None) != (eb is None):
+                out.fail("C09.resume", "resumed run differs from the uninterrupted run in raising", f"k={k} step {t + 1}: {ea!r} vs {eb!r}")
+            return out
+        d = _same(_record(A), B)
+        if d is not None:
+            out.fail("C09.resume", "resumed run diverges from the uninterrupted run", f"k={k} step {t + 1}: {d}")
+            return out
+    out.sub_evaluations = 1
+    out.nontrivial = True
+    out.classes += [f"pdtype_{case['cfg']['pdtype']}", f"k_{k}"]
+    return out
+
+
 # --------------------------------------------------------------------------- DDP (DTensor) state layout on the simulator
 def strategy_ddp():
     from hypothesis import strategies as st
@@ -263,5 +335,6 @@ def oracle_ddp(case: dict) -> Outcome:
 
 STREAMS = {
     "roundtrip": Stream("roundtrip", oracle=oracle, strategy=strategy, quick=480, thorough=12000, shards_quick=16, shards_thorough=16),
+    "long_run": Stream("long_run", oracle=oracle_long, strategy=strategy_long, quick=48, thorough=600, shards_quick=16, shards_thorough=16),
     "ddp_layout": Stream("ddp_layout", oracle=oracle_ddp, strategy=strategy_ddp, quick=160, thorough=3000, shards_quick=16, shards_thorough=16),
 }
